@@ -52,6 +52,9 @@ func (s *SignedLatency) OnPing(pingReqID uint32) error {
 	if !ok {
 		return errors.New("ping request not found")
 	}
+	if !pingRequest.End.IsZero() {
+		return errors.New("ping request already answered")
+	}
 
 	s.Iteration--
 	s.PingRequests[pingReqID] = LatencyMetricsData{
